@@ -9,7 +9,7 @@ termination."""
 import re
 
 from .. import cfg, rules, flow, panic, boundary
-from ..cfg import expr_operand, show, nshow, peel
+from ..cfg import expr_operand, show, nshow, peel, graph
 from ..panic import Review
 
 ENTRIES = [r"radicle_term::cell::Cell>::(truncate|width|pad)$", r"^radicle_term::element::Line::truncate$"]
@@ -55,7 +55,7 @@ TABLE = [
 
 def run(ctx):
     ctx.explanation = (
-        "Decides structurally: no unreviewed panic source in the truncation code of radicle-term reachable from "
+        "Decides structurally: column budgets are measured with the display-width function only; no unreviewed panic source in the truncation code of radicle-term reachable from "
         "Cell::{truncate,width,pad} and Line::truncate; str range bounds are char-boundary-class offsets (BOUNDARY). "
         "The width bound and termination of Line::truncate's loop are not decided.")
     ctx.not_decided = "output display width <= requested width; termination of the while loop in Line::truncate; arithmetic underflow in `total - ..` (overflow checks are off in release)"
@@ -74,3 +74,67 @@ def run(ctx):
             ctx.check("boundary:%s:bb-ord%d" % (fn["key"], sum(1 for b2, _ in boundary.str_index_sinks(fn) if b2 < bb)), ok,
                       "str slice uses boundary-class offsets%s" % ("" if ok else ": " + msg), rules.where(fn, bb), fn=fn)
     ctx.floor("boundary:sinks", n, 1, "str range-index sites in cell.rs/element.rs")
+
+    # MEASURE: whatever is compared with the requested width is measured with the display-width function
+    # (the guard `width < Cell::width(self)`, the per-grapheme budget, the delimiter) — a second, different way of
+    # measuring lets the budget disagree with the width that callers (Line::truncate's loop) re-check
+    tr = db.one(r"^<str as radicle_term::cell::Cell>::truncate$")
+    if tr is None:
+        ctx.violated("anchor:str::truncate", "<str as Cell>::truncate not found")
+    else:
+        WIDTH = re.compile(r"cell::Cell>::width$|unicode::width$|unicode_width|UnicodeWidth")
+        g = graph(tr)
+        ncmp = 0
+        problems = []
+
+        def leaves(e, depth=0, seen=None):
+            seen = seen if seen is not None else set()
+            e = peel(e)
+            if depth > 12:
+                return [("deep", "")]
+            if e[0] == "const":
+                return [("const", e[1].get("v"))]
+            if e[0] == "arg":
+                return [("arg", e[1])]
+            if e[0] == "call":
+                n_ = e[1].get("n") or e[1].get("dn") or ""
+                if WIDTH.search(n_):
+                    return [("width", n_)]
+                return [("call", cfg.short(n_))]
+            if e[0] == "bin":
+                return leaves(e[2], depth + 1, seen) + leaves(e[3], depth + 1, seen)
+            if e[0] in ("field", "cast", "un"):
+                return leaves(e[1] if e[0] == "field" else e[2], depth + 1, seen)
+            if e[0] == "phi":
+                if e[1] in seen:
+                    return []
+                seen.add(e[1])
+                out = []
+                for d in g.defs().get(e[1], []):
+                    if d[0] == "stmt":
+                        out += leaves(cfg.expr_rvalue(tr, d[3]), depth + 1, seen)
+                    elif d[0] == "call":
+                        t_ = d[2]
+                        out += leaves(("call", t_[1], [], d[1]), depth + 1, seen)
+                return out
+            return [("other", cfg.show(e)[:40])]
+        for b0, tb, lab, facts in cfg.all_edge_facts(db, tr):
+            for f in facts:
+                if f[0] != "cmp":
+                    continue
+                l, r = peel(f[2]), peel(f[3])
+                other = None
+                if l[0] == "arg" and l[1] == 2:
+                    other = r
+                elif r[0] == "arg" and r[1] == 2:
+                    other = l
+                if other is None:
+                    continue
+                ncmp += 1
+                for kind, what in leaves(other):
+                    if kind == "width" or (kind == "const" and what == "0"):
+                        continue
+                    problems.append("%s %s" % (kind, what))
+        ctx.check("measure:str::truncate", ncmp >= 2 and not problems,
+                  "every quantity compared with the requested width is a sum of display widths (Cell::width) — found %s"
+                  % (sorted(set(problems)) or "only display widths"), rules.where(tr), fn=tr)
